@@ -292,6 +292,11 @@ pub fn run(args: &[String]) -> i32 {
         u64::MAX,
     );
     merge(&mut rep, "optional_markers", accs, &stats, json!({"bases": BASES, "wrappers": WRAPPERS, "default_forms": DEFAULTS, "positions": POSITIONS, "languages": 6, "configs": 2}));
+    let amb_k = if rep.thorough() { 3 } else { 2 };
+    super::common::ambient_family(&mut rep, "ambient_variations", amb_k + 1, |ch| { gen(ch); }, |ch, acc| {
+        let c = gen(ch);
+        check_case(&c, &ch.choices(), acc);
+    });
     require_nonvacuous(&mut rep);
     rep.cov("rule", json!("full product base type × wrapper × serde(default) form × position × language × configuration; the optional marker of the member is compared with `Option ∨ bare default`, and the member's type with the type of a control member of the un-wrapped base type in the same definition (differential oracle). non-trivial = the field is expected optional or carries some default attribute."));
     rep.assume("optional idioms per backend as listed in the property: TS `?` (+ `| null` for double option), Kotlin `? = null`, Swift `?`, Scala `Option[..] = None`, Go pointer + omitempty, Python Optional + default None");
